@@ -1,0 +1,109 @@
+//go:build verif
+
+package nfsv4
+
+import (
+	"github.com/buildbarn/go-xdr/pkg/protocols/nfsv4"
+)
+
+// Hooks for the external verification harness (/verif). This file only
+// exists when building with the "verif" build tag and only adds
+// read-only probes; it does not alter any behaviour.
+
+// VerifStateCounts returns the number of records of every kind that an
+// NFSv4.0 or NFSv4.1 program currently retains. The second result is
+// false if the program is of an unknown type or if one of its locks
+// could not be acquired without blocking (which at quiescence means
+// that a lock was leaked).
+func VerifStateCounts(program nfsv4.Nfs4Program) (map[string]int, bool) {
+	switch p := program.(type) {
+	case *nfs40Program:
+		if !p.lock.TryLock() {
+			return nil, false
+		}
+		defer p.lock.Unlock()
+		c := map[string]int{
+			"clients":                 len(p.clientsByLongID),
+			"client_confirmations":    len(p.clientConfirmationsByKey),
+			"client_confirmations_id": len(p.clientConfirmationsByShortID),
+			"open_owner_files":        len(p.openOwnerFilesByOther),
+			"lock_owner_files":        len(p.lockOwnerFilesByOther),
+		}
+		for _, client := range p.clientsByLongID {
+			if cc := client.confirmed; cc != nil {
+				c["confirmed_clients"]++
+				c["open_owners"] += len(cc.openOwners)
+				c["lock_owners"] += len(cc.lockOwners)
+			}
+		}
+		for _, ccs := range p.clientConfirmationsByKey {
+			c["hold_count"] += ccs.holdCount
+		}
+		for ccs := p.idleClientConfirmations.nextIdle; ccs != &p.idleClientConfirmations; ccs = ccs.nextIdle {
+			c["idle_client_confirmations"]++
+		}
+		for oos := p.unusedOpenOwners.nextUnused; oos != &p.unusedOpenOwners; oos = oos.nextUnused {
+			c["unused_open_owners"]++
+		}
+		return c, true
+	case *nfs41Program:
+		if !p.clientsLock.TryLock() {
+			return nil, false
+		}
+		defer p.clientsLock.Unlock()
+		c := map[string]int{
+			"clients":             len(p.clientsByOwnerID),
+			"client_incarnations": len(p.clientIncarnationsByClientID),
+			"sessions":            len(p.sessionsBySessionID),
+		}
+		for _, cis := range p.clientIncarnationsByClientID {
+			c["hold_count"] += cis.holdCount
+			if cis.holdCount != 0 {
+				// Maps are owned by the holders; do not touch them.
+				continue
+			}
+			if !cis.lock.TryLock() {
+				return nil, false
+			}
+			c["open_owners"] += len(cis.openOwnersByOwner)
+			c["open_owner_files"] += len(cis.openOwnerFilesByOther)
+			c["lock_owners"] += len(cis.lockOwnersByOwner)
+			c["lock_owner_files"] += len(cis.lockOwnerFilesByOther)
+			cis.lock.Unlock()
+		}
+		for cis := p.idleClientIncarnations.nextIdle; cis != &p.idleClientIncarnations; cis = cis.nextIdle {
+			c["idle_client_incarnations"]++
+		}
+		return c, true
+	default:
+		return nil, false
+	}
+}
+
+// VerifOpenedCount returns the number of files the pool currently
+// tracks as opened; ok is false if the pool's lock could not be
+// acquired without blocking.
+func (ofp *OpenedFilesPool) VerifOpenedCount() (count int, ok bool) {
+	if !ofp.lock.TryLock() {
+		return 0, false
+	}
+	defer ofp.lock.Unlock()
+	return len(ofp.filesByHandle), true
+}
+
+// VerifLockEntryCount returns the total use count of all opened files;
+// ok is false if a lock could not be acquired without blocking.
+func (ofp *OpenedFilesPool) VerifUseCount() (total int, ok bool) {
+	if !ofp.lock.TryLock() {
+		return 0, false
+	}
+	defer ofp.lock.Unlock()
+	for _, of := range ofp.filesByHandle {
+		total += int(of.useCount)
+		if !of.locksLock.TryLock() {
+			return 0, false
+		}
+		of.locksLock.Unlock()
+	}
+	return total, true
+}
